@@ -945,6 +945,10 @@ class reg(exp):
 
     def eval(self, env):
         r = env[self]
+        if r._is_cst:
+            # operators adjust the sign flag of their operands in place:
+            # don't let them alter the constant stored in env.
+            r = cst(r.v, r.size)
         r.sf = self.sf
         return r
 
